@@ -554,7 +554,11 @@ struct Exec {
         uint64_t every = (uint64_t)op.geti("repeat_every", 0);
         std::string dst = finfo[src].fmt == "oas" ? "/sim/sweep.oas" : "/sim/sweep.gds";
         truth(src);
-        for (uint64_t n = lo; n < hi; n++) {
+        // the work is quadratic in the length: beyond 48 KiB the cuts are thinned out (counted, so that the
+        // evidence does not call such a file exhaustively swept)
+        uint64_t stride = len > 49152 ? len / 49152 + 1 : 1;
+        if (stride > 1) count("sweep_files_thinned");
+        for (uint64_t n = lo; n < hi; n += stride) {
             uint64_t mark = W->heap.mark();
             make_cut(src, dst, n);
             for (auto& rd : op.at("readers").a) {
@@ -563,6 +567,7 @@ struct Exec {
                 r.set("file", dst);
                 r.set("repeat", (every && n % every == 0) ? 2 : 1);
                 if (op.geti("no_error_code_every", 0) > 0 && n % (uint64_t)op.geti("no_error_code_every") == 1) r.set("no_error_code", true);
+                if (rd.s == "gds_info" && n % 5 == 3) r.set("reuse_summary", true);
                 size_t before = res.viols.size();
                 opname = rd.s;
                 op_reader(r);
@@ -573,7 +578,7 @@ struct Exec {
             W->event_budget = (int64_t)W->events + 5000000;
             count("sweep_cuts");
         }
-        count("sweep_files");
+        if (stride == 1) count("sweep_files");
         res.counters["sweep_bytes"] += len;
     }
 
@@ -726,7 +731,26 @@ struct Exec {
                 }
             } else if (reader == "gds_info") {
                 LibraryInfo info = {};
+                // "reuse_summary": the caller's LibraryInfo already holds the summary of another (complete)
+                // file; what it owns must still be intact after the call, whatever the call met
+                std::vector<std::string> owned;
+                if (op.getb("reuse_summary") && !ref.empty() && ref != file && W->fs.exists(ref)) {
+                    guarded([&]() { gds_info(ref.c_str(), info); });
+                    for (uint64_t i = 0; i < info.cell_names.count; i++) owned.push_back(info.cell_names[i] ? info.cell_names[i] : "");
+                    count("gds_info_into_a_used_summary");
+                }
                 returned = guarded([&]() { ec = gds_info(file.c_str(), info); });
+                if (returned && !owned.empty()) {
+                    bool intact = info.cell_names.count >= owned.size();
+                    for (size_t i = 0; intact && i < owned.size(); i++) {
+                        bool same = false;
+                        guarded([&]() { same = info.cell_names[i] && owned[i] == info.cell_names[i]; });
+                        intact = same;
+                    }
+                    if (!intact)
+                        viol(vprop, "summary_of_earlier_call_damaged", "gds_info into a LibraryInfo that already held " + std::to_string(owned.size()) +
+                                                                           " cell names: those names are no longer what they were", ctx);
+                }
                 if (returned) {
                     if (trunc == 1 && ec == ErrorCode::NoError)
                         viol("C18", "truncated_read_as_complete",
@@ -1690,7 +1714,8 @@ struct Exec {
         if (finfo[s.file].damage == "open_session") finfo[s.file].damage = "";
         // the session's file: strict container, raw cells load as in their source, fresh cells as their model
         gdspeer::Decoded& d = truth(s.file);
-        if (!d.ok || !d.strict_ok) {
+        // (raw cells from a file with tags above 32767 carry fields outside the format's range: no strictness then)
+        if (!d.ok || (!d.strict_ok && !op.getb("lenient_container"))) {
             viol("C17", "session_file_malformed", "the file written by a GdsWriter session is rejected by the independent decoder: " + d.error, ctx);
         } else {
             // every BGNSTR written by write_cell carries the timestamp of the session, like BGNLIB
@@ -2018,7 +2043,10 @@ struct Exec {
         bridge::ExtractOptions xo;
         xo.mode = canon::OAS;
         canon::CLib got;
-        guarded([&]() { got = bridge::extract(lib, xo); });
+        // after a hard error read_oas may hand back a half-built library (references that still hold their
+        // reference numbers where pointers belong): not something to walk through
+        bool hard_error = ec != ErrorCode::NoError && ec != ErrorCode::MissingReference;
+        if (!hard_error) guarded([&]() { got = bridge::extract(lib, xo); });
         feature_state("load_check_oas", ex.has("model") ? (int)ex.geti("model") : fi.model, fi.max_points, (ex.has("canon") ? 1 : 0) | ((uint64_t)op.geti("level_class") << 1));
         if (have) {
             bool dangling = false;
@@ -2048,6 +2076,24 @@ struct Exec {
                         }
                     }
                     ctx.set("flags", J());
+                    if (ex.has("model")) {
+                        bool most_negative = false;
+                        auto scan = [&](const std::vector<model::MProp>& ps) {
+                            for (auto& p : ps)
+                                for (auto& v : p.vals)
+                                    if (v.kind == 1 && v.i == INT64_MIN) most_negative = true;
+                        };
+                        const model::MLib& m = models[ex.geti("model")];
+                        scan(m.props);
+                        for (auto& c : m.cells) {
+                            scan(c.props);
+                            for (auto& q : c.polys) scan(q.props);
+                            for (auto& q : c.paths) scan(q.props);
+                            for (auto& q : c.labels) scan(q.props);
+                            for (auto& q : c.refs) scan(q.props);
+                        }
+                        if (most_negative) ctx.set("model_has_the_most_negative_integer_as_property_value", true);
+                    }
                     viol(prop, clause, why, ctx);
                 }
             }
